@@ -53,6 +53,8 @@ pub struct RenderProp {
     pub flavours: bool,
     /// build the packages with `dynamic_load` and also observe the run-time string tables (C11)
     pub dynamic_load: bool,
+    /// enumerated projects checked in addition to the generated ones (index = stable id for replay)
+    pub fixed_projects: Option<fn(Tier) -> Vec<(usize, Project)>>,
 }
 
 fn fail(sig: &str, detail: J) -> Failure {
@@ -187,6 +189,8 @@ struct Pkg {
     project: Project,
     plan: Plan,
     style_seed: u64,
+    /// index into the property's enumerated projects (no tape)
+    fixed: Option<usize>,
 }
 
 fn member_name(prop: &str, i: usize) -> String {
@@ -499,6 +503,7 @@ fn report_failure(ctx: &mut Ctx, rp: &RenderProp, pkg: &Pkg, f: Failure) {
                     project: small,
                     plan,
                     style_seed: pkg.style_seed,
+                    fixed: None,
                 };
                 let sub = run_packages(ctx, rp, std::slice::from_ref(&spkg), None);
                 if let Some((_, sf)) = sub.into_iter().next() {
@@ -515,6 +520,9 @@ fn report_failure(ctx: &mut Ctx, rp: &RenderProp, pkg: &Pkg, f: Failure) {
         detail["project"] = ser::project_to_json(&pkg.project);
     }
     detail["keep"] = keep_json;
+    if let Some(i) = pkg.fixed {
+        detail["fixed_index"] = json!(i);
+    }
     ctx.fail("l2", Some(&pkg.tape), &Failure { signature: f.signature, detail });
 }
 
@@ -523,7 +531,16 @@ pub fn render_prop(mut ctx: Ctx, rp: &RenderProp) -> ! {
         // replay: regenerate the package from the tape (pruned to the recorded keep-set) and re-check
         let v: J = serde_json::from_str(&std::fs::read_to_string(&path).unwrap_or_default()).unwrap_or(J::Null);
         let tape: Vec<u32> = v["tape"].as_array().map(|a| a.iter().map(|x| x.as_u64().unwrap_or(0) as u32).collect()).unwrap_or_default();
-        match project_for(&tape, rp) {
+        let fixed = v["detail"]["fixed_index"].as_u64().and_then(|i| rp.fixed_projects.and_then(|f| f(Tier::Thorough).into_iter().find(|(j, _)| *j as u64 == i)));
+        let generated = match fixed {
+            Some((_, project)) => {
+                let mut t = Tape::new(vec![]);
+                let plan = plan::plan_project(&project, &rp.opts, &mut t);
+                Some((project, plan, 0u64))
+            }
+            None => project_for(&tape, rp),
+        };
+        match generated {
             None => ctx.harness_error("replay tape does not produce a checkable project".into()),
             Some((mut project, mut plan, style_seed)) => {
                 if let Some(keep) = v["detail"]["keep"].as_array() {
@@ -538,6 +555,7 @@ pub fn render_prop(mut ctx: Ctx, rp: &RenderProp) -> ! {
                     project,
                     plan,
                     style_seed,
+                    fixed: None,
                 };
                 for (_, f) in run_packages(&mut ctx, rp, std::slice::from_ref(&pkg), None) {
                     let mut d = f.detail.clone();
@@ -569,10 +587,28 @@ pub fn render_prop(mut ctx: Ctx, rp: &RenderProp) -> ! {
                     project,
                     plan,
                     style_seed,
+                    fixed: None,
                 });
             }
             None => rejected += 1,
         }
+    }
+    if let Some(fp) = rp.fixed_projects {
+        let mut nfixed = 0;
+        for (i, project) in fp(ctx.tier) {
+            let mut t = Tape::new(vec![]);
+            let plan = plan::plan_project(&project, &rp.opts, &mut t);
+            pkgs.push(Pkg {
+                name: format!("{}_f{}", rp.id.to_lowercase(), i),
+                tape: vec![],
+                project,
+                plan,
+                style_seed: i as u64,
+                fixed: Some(i),
+            });
+            nfixed += 1;
+        }
+        ctx.set_extra("enumerated_packages", json!(nfixed));
     }
     ctx.set_extra("packages", json!(pkgs.len()));
     let mut hist: BTreeMap<String, u64> = BTreeMap::new();
@@ -611,6 +647,7 @@ fn warmup(mut ctx: Ctx) -> ! {
                 project,
                 plan,
                 style_seed,
+                fixed: None,
             };
             let ws = ws_dir("warmup");
             let _ = run::prepare_workspace(&ws, &[pkg.name.clone()]);
@@ -702,6 +739,7 @@ pub fn c01() -> RenderProp {
         shape: None,
         flavours: false,
         dynamic_load: false,
+        fixed_projects: None,
     }
 }
 
@@ -736,13 +774,24 @@ pub fn c03() -> RenderProp {
         rule: "generated packages with 3-6 locales, heavy null / absent / inherits weights (chains, forks, cycles, self-reference, \
                explicit default); every (locale, key) is observed through td_string! and td!(..).to_html(), which exercises the \
                generated `Locale::x | Locale::y =>` match arms and literal accessors; oracle = the model's visited-set walk along \
-               inherits, then default. one case = one key; non-trivial = key with a locale defaulted but not directly to the default \
-               locale (>=2 hops, a cycle, or a chain ending elsewhere); distinct = hash of the key's resolved per-locale values",
-        assumptions: &[],
+               inherits, then default. In addition one package per enumerated inherits map of the 4-locale domain {fr,de,es} -> \
+               {none,en,fr,de,es} holds, for each of the 27 presence patterns {defined,null,absent}^3, a string, an interpolation, a \
+               range, a plural, a leaf in a shared group and a whole group. one case = one key; non-trivial = key with a locale \
+               defaulted but not directly to the default locale (>=2 hops, a cycle, or a chain ending elsewhere); distinct = hash of \
+               the key's resolved per-locale values",
+        assumptions: &["the enumerated part covers the complete 4-locale domain in the thorough tier (125 maps) and 8 representative maps (none, chain, fork, 2-cycle, 3-cycle, self-reference, explicit default, mixed) in the quick tier"],
         min_nontrivial: 10,
         shape: None,
         flavours: false,
         dynamic_load: false,
+        fixed_projects: Some(|tier| {
+            let maps: Vec<usize> = match tier {
+                // encoded as m0 + 5*m1 + 25*m2, m_i in {0 none, 1 en, 2 fr, 3 de, 4 es}
+                Tier::Quick => vec![0, 2 * 5 + 3 * 25, 2 * 5 + 2 * 25, 3 + 2 * 5, 3 + 4 * 5 + 2 * 25, 2, 1 + 5 + 25, 2 * 25],
+                Tier::Thorough => (0..125).collect(),
+            };
+            maps.into_iter().map(|m| (m, vcommon::gen::c03_project_for_map([m % 5, (m / 5) % 5, m / 25]))).collect()
+        }),
     }
 }
 
@@ -795,6 +844,7 @@ pub fn c04() -> RenderProp {
         shape: None,
         flavours: false,
         dynamic_load: false,
+        fixed_projects: None,
     }
 }
 
@@ -839,6 +889,7 @@ pub fn c05() -> RenderProp {
         shape: None,
         flavours: false,
         dynamic_load: false,
+        fixed_projects: None,
     }
 }
 
@@ -880,6 +931,7 @@ pub fn c06() -> RenderProp {
         shape: None,
         flavours: false,
         dynamic_load: false,
+        fixed_projects: None,
     }
 }
 
@@ -923,6 +975,7 @@ pub fn c02() -> RenderProp {
         shape: None,
         flavours: true,
         dynamic_load: false,
+        fixed_projects: None,
     }
 }
 
@@ -967,5 +1020,6 @@ pub fn c11() -> RenderProp {
         shape: None,
         flavours: false,
         dynamic_load: true,
+        fixed_projects: None,
     }
 }
